@@ -6,6 +6,7 @@
 package vos
 
 import (
+	"errors"
 	"io"
 	real "os"
 	"sync/atomic"
@@ -53,6 +54,18 @@ func begin(c *Call) *Call {
 		return nil
 	}
 	b.h.Before(c)
+	if c.Err != nil {
+		// give an injected failure the shape the real call would give it
+		var pe *real.PathError
+		var le *real.LinkError
+		if !errors.As(c.Err, &pe) && !errors.As(c.Err, &le) {
+			if c.Op == "rename" {
+				c.Err = &real.LinkError{Op: "rename", Old: c.Path, New: c.Path2, Err: c.Err}
+			} else {
+				c.Err = &real.PathError{Op: c.Op, Path: c.Path, Err: c.Err}
+			}
+		}
+	}
 	return c
 }
 
